@@ -15,7 +15,19 @@ pub fn main(args: &Args) {
                 println!("{}: ch={} out={:?}", b.name(), r.channels, r.out);
                 println!("   state_last={:?} total={:?}", r.states.last(), r.total_state_size);
             }
-            Err(e) => println!("{}: ERR {}", b.name(), e.short()),
+            Err(e) => {
+                println!("{}: ERR {}", b.name(), e.short());
+                if let crate::run::RunError::Build(crate::run::BuildError::Rejected(ds)) = &e {
+                    for d in ds {
+                        println!("   diag: {}", d.message);
+                        for (s0, e0, _p, m) in &d.labels {
+                            let a = (*s0).min(src.len());
+                            let bb = (*e0).min(src.len()).max(a);
+                            println!("      [{s0}..{e0}] {m:?} text={:?}", src.get(a..bb));
+                        }
+                    }
+                }
+            }
         }
     }
 }
